@@ -18,6 +18,7 @@ struct Cfg {
 enum Prof {
     Dev,
     Prod,
+    Dot,
 }
 impl std::str::FromStr for Prof {
     type Err = String;
@@ -25,6 +26,7 @@ impl std::str::FromStr for Prof {
         match s {
             "dev" => Ok(Prof::Dev),
             "prd" => Ok(Prof::Prod),
+            "p.q" => Ok(Prof::Dot),
             _ => Err(format!("unknown profile {s}")),
         }
     }
@@ -34,16 +36,41 @@ impl AsRef<str> for Prof {
         match self {
             Prof::Dev => "dev",
             Prof::Prod => "prd",
+            Prof::Dot => "p.q",
         }
     }
 }
 impl ConfigProfile for Prof {}
 
-fn yaml(v: &Value) -> String {
+// The same two keys under names that merely *start like* the reserved PX_PROFILE variable: the
+// documented precedence must hold whatever a key is called ("key_style" in the script).
+#[derive(serde::Deserialize, Debug)]
+#[serde(deny_unknown_fields)]
+struct CfgFlat {
+    profiles_dir: u8,
+    k1: u8,
+}
+#[derive(serde::Deserialize, Debug)]
+#[serde(deny_unknown_fields)]
+struct Label {
+    label: u8,
+}
+#[derive(serde::Deserialize, Debug)]
+#[serde(deny_unknown_fields)]
+struct CfgNested {
+    profiler: Label,
+    k1: u8,
+}
+
+fn yaml(v: &Value, style: &str) -> String {
     let mut s = String::new();
     for (i, k) in ["k0", "k1"].iter().enumerate() {
         if let Some(n) = v[i].as_u64() {
-            s.push_str(&format!("{k}: {n}\n"));
+            match (i, style) {
+                (0, "profiles_dir") => s.push_str(&format!("profiles_dir: {n}\n")),
+                (0, "profiler_label") => s.push_str(&format!("profiler:\n  label: {n}\n")),
+                _ => s.push_str(&format!("{k}: {n}\n")),
+            }
         }
     }
     if s.is_empty() { "{}\n".to_string() } else { s }
@@ -75,20 +102,27 @@ fn main() {
         "ancestor" => std::env::set_current_dir(root.join("sub").join("deeper")).unwrap(),
         _ => {}
     }
-    let selected = explicit.clone().or_else(|| envp.clone().filter(|p| p == "dev" || p == "prd"));
-    std::fs::write(dir.join("base.yml"), yaml(&vals[0])).unwrap();
+    let style = script["key_style"].as_str().unwrap_or("plain").to_string();
+    let selected = explicit.clone().or_else(|| envp.clone().filter(|p| p == "dev" || p == "prd" || p == "p.q"));
+    std::fs::write(dir.join("base.yml"), yaml(&vals[0], &style)).unwrap();
     // the profile file of the profile that should be selected holds the values; the other profile's
     // file holds poison values, so that selecting the wrong profile is visible
-    for p in ["dev", "prd"] {
-        let content = if Some(p.to_string()) == selected { yaml(&vals[1]) } else { "k0: 201\nk1: 202\n".to_string() };
+    // ("p" is what a profile called "p.q" degenerates to when its extension is replaced instead of appended)
+    for p in ["dev", "prd", "p.q", "p"] {
+        let content = if Some(p.to_string()) == selected { yaml(&vals[1], &style) } else { yaml(&serde_json::json!([201, 202]), &style) };
         std::fs::write(dir.join(format!("{p}.yml")), content).unwrap();
     }
     // SAFETY: single-threaded
     unsafe {
-        for k in ["PX_K0", "PX_K1", "PX_PROFILE"] {
+        for k in ["PX_K0", "PX_K1", "PX_PROFILE", "PX_PROFILES_DIR", "PX_PROFILER__LABEL"] {
             std::env::remove_var(k);
         }
-        for (i, k) in ["PX_K0", "PX_K1"].iter().enumerate() {
+        let k0_var = match style.as_str() {
+            "profiles_dir" => "PX_PROFILES_DIR",
+            "profiler_label" => "PX_PROFILER__LABEL",
+            _ => "PX_K0",
+        };
+        for (i, k) in [k0_var, "PX_K1"].iter().enumerate() {
             if let Some(n) = vals[2][i].as_u64() {
                 std::env::set_var(k, n.to_string());
             }
@@ -101,7 +135,12 @@ fn main() {
     if let Some(p) = &explicit {
         loader = loader.profile(p.parse().unwrap());
     }
-    let r: Result<Cfg, _> = loader.load();
+    // (k0, k1) as loaded, whatever the first key is called
+    let r: Result<(u8, u8), _> = match style.as_str() {
+        "profiles_dir" => loader.load::<CfgFlat>().map(|c| (c.profiles_dir, c.k1)),
+        "profiler_label" => loader.load::<CfgNested>().map(|c| (c.profiler.label, c.k1)),
+        _ => loader.load::<Cfg>().map(|c| (c.k0, c.k1)),
+    };
     let _ = std::env::set_current_dir(std::env::temp_dir());
     let _ = std::fs::remove_dir_all(&root);
     let want = |k: usize| vals[2][k].as_u64().or(vals[1][k].as_u64()).or(vals[0][k].as_u64());
@@ -116,8 +155,8 @@ fn main() {
     } else {
         match (&r, want(0), want(1)) {
             (Ok(c), Some(a), Some(b)) => {
-                if c.k0 as u64 != a || c.k1 as u64 != b {
-                    fail(format!("loaded k0={} k1={}, the documented precedence gives k0={a} k1={b} (values {vals})", c.k0, c.k1));
+                if c.0 as u64 != a || c.1 as u64 != b {
+                    fail(format!("loaded k0={} k1={}, the documented precedence gives k0={a} k1={b} (values {vals}, key style {style})", c.0, c.1));
                 }
             }
             (Err(e), Some(_), Some(_)) => fail(format!("a fully defined configuration failed to load: {e:?}")),
